@@ -311,6 +311,17 @@ def c13(rep, tier, seed):
     from . import coroprobe
     coroprobe.check(rep)
     run_conc(rep, spec_await(tier), tier, seed, {"C13"})
+    # sequential semantics of every awaitable / coroutine kind / way of starting, in the three transfer configurations
+    cfgs = ["CoroSeq_quick.cfg", "CoroSeq_second.cfg", "CoroSeq_rej.cfg"]
+    if tier == "thorough":
+        cfgs.append("CoroSeq_thorough.cfg")
+    seq.check_coroseq(rep, tier, cfgs)
+    rep.assumptions += ["CoroSeq.tla: one main coroutine (Future / SharedFuture / Task x 5 ways of starting) of <= 2 statements "
+                        "(3 in the thorough tier) over On, Yield, CurrentExecutor, co_await / Await / AwaitSticky / AwaitOn of "
+                        "unique, FutureOn and shared futures (ready / pending x value / StopError / exception), co_await / "
+                        "Await of coroutine, MakeTask and Schedule Tasks, a second coroutine on the same SharedFuture, FIFO "
+                        "executors rejecting from their k-th submission; deterministic driver; library built with symmetric "
+                        "transfer everywhere / not in final_suspend / nowhere"]
     rep.assumptions += ["one coroutine awaiting 1-2 unique futures (co_await Future, Await, AwaitSticky, AwaitOn; static and "
                         "iterator forms); executor of sticky / on: runs the job where it is submitted, or rejects (Drop); "
                         "awaiting a SharedFuture (1 and 2 coroutines on the same one): all schedules, judged by the abstract "
@@ -463,6 +474,8 @@ def c05(rep, tier, seed):
     seq.check_pipeline(rep, cfgs, {"C05"}, tier, crash_key=_inner_task_key)
     # sequential submission histories over the real executors with reused (intrusive) job objects
     seq.check_execseq(rep, tier)
+    # coroutines: after co_await On(e) / AwaitOn(e, ..) the body runs inside e; rejection completes it with StopError
+    seq.check_coroseq(rep, tier, ["CoroSeq_rej.cfg"])
     # concurrent part: interleavings of Stop with Submit on the real Strand (Called xor Dropped, Drop only after refusal)
     sp = spec_strand(tier, primary="C05")
     sp.mc_cfgs = []  # the model itself is checked by C07; here the code is validated against it
@@ -481,6 +494,8 @@ def c12(rep, tier, seed):
     if tier == "thorough":
         cfgs.append(("Pipeline_C12_thorough.cfg", "lazy programs of length <= 3"))
     seq.check_pipeline(rep, cfgs, {"C12", "C02"}, tier, crash_key=_inner_task_key)
+    # coroutine Tasks and Tasks started by co_await / Await (CoroSeq.tla: NothingBeforeStart, DroppedRunsNothing, LazyTwin)
+    seq.check_coroseq(rep, tier, ["CoroSeq_C12.cfg"])
 
 
 @check("C20")
